@@ -42,6 +42,8 @@ def run(ctx):
         rule_sink_sequential(ctx, "C11.O", fv, "cgr::vectorise")
         rule_flush_pairing(ctx, "C11.O", fv, "cgr::vectorise")
         point_text(ctx, "C11.O", fv, "cgr::vectorise", "({},{})", 2)
+    from . import c06
+    c06.reader_deps(ctx, "C11")
 
 
 def table_rule(ctx, rule, path):
